@@ -112,6 +112,8 @@ func eqT[T Num](a, b T) bool {
 func runProgram[T Num](c *core.Ctx, b *Backend[T], p *AProg, sides []*realSide[T], o execOpts) {
 	sim := newSim[T](p.Root)
 	sim.base = magBase[T](p.Magnitude, p.Backing != "go")
+	specialFloats = p.Magnitude == "S"
+	defer func() { specialFloats = false }()
 	base := sim.base
 	model := "array/" + p.Type
 	viol := func(kind, format string, a ...interface{}) {
@@ -255,13 +257,13 @@ func runProgram[T Num](c *core.Ctx, b *Backend[T], p *AProg, sides []*realSide[T
 				case "slice":
 					side.views = append(side.views, v.Slice(aLoc, aDims, aStep))
 				case "set":
-					v.Set(aLoc, T(op.Vals[0])+base)
+					v.Set(aLoc, mkVal(op.Vals[0], base))
 				case "set1":
-					v.Set1(op.Loc[0], T(op.Vals[0])+base)
+					v.Set1(op.Loc[0], mkVal(op.Vals[0], base))
 				case "set2":
-					v.Set2(op.Loc[0], op.Loc[1], T(op.Vals[0])+base)
+					v.Set2(op.Loc[0], op.Loc[1], mkVal(op.Vals[0], base))
 				case "set3":
-					v.Set3(op.Loc[0], op.Loc[1], op.Loc[2], T(op.Vals[0])+base)
+					v.Set3(op.Loc[0], op.Loc[1], op.Loc[2], mkVal(op.Vals[0], base))
 				case "apply":
 					v.Apply(aLoc, op.Dim, op.St, conv[T](op.Vals, base))
 				case "apply1":
@@ -318,9 +320,9 @@ func runProgram[T Num](c *core.Ctx, b *Backend[T], p *AProg, sides []*realSide[T
 					// aliasing probe (Go-backed contiguous views must alias; the C back-end documents a copy)
 					if o.checkBulk && !side.isC && sv.contiguous() && len(u) > 0 && sv.st.id == 0 {
 						old := u[0]
-						u[0] = T(op.Vals[0]) + base
+						u[0] = mkVal(op.Vals[0], base)
 						st := side.store()
-						if !eqT(st[sv.offs[0]], T(op.Vals[0])+base) {
+						if !eqT(st[sv.offs[0]], mkVal(op.Vals[0], base)) {
 							viol(o.prop+"unroll-not-aliasing", "on %s: writing through Unroll() of a contiguous view did not reach the storage", side.name)
 						}
 						u[0] = old
